@@ -354,3 +354,52 @@ class Steer:
         self._PRF.__call__ = self._orig_call
         os.urandom = self._orig_urandom
         return False
+
+
+class FailAt:
+    """Source-free failpoint: inside the context the k-th executed statement of the repository files under `subdirs`
+    raises `exc` (sys.monitoring LINE event whose callback raises) - what Ctrl-C, an alarm-driven deadline or an
+    exception raised from a callback does to an operation in flight. k=None only counts statements (`lines`)."""
+
+    def __init__(self, repo, k=None, exc=KeyboardInterrupt, subdirs=("toolkit", "schemes", "data_persistence")):
+        self.prefixes = tuple(os.path.join(os.path.realpath(repo), d) + os.sep for d in subdirs)
+        self.k, self.exc = k, exc
+        self.lines = 0
+        self.fired = False
+        self.ok = False
+
+    def __enter__(self):
+        mon = getattr(sys, "monitoring", None)
+        if mon is None:
+            return self
+        self.tool = mon.DEBUGGER_ID
+        try:
+            mon.use_tool_id(self.tool, "verif-failat")
+        except ValueError:
+            return self
+        self.ok = True
+        prefixes = self.prefixes
+
+        def on_line(code, line):
+            if not code.co_filename.startswith(prefixes):
+                return mon.DISABLE
+            self.lines += 1
+            if self.k is not None and self.lines == self.k and not self.fired:
+                self.fired = True
+                raise self.exc("injected by the harness at statement %d (%s:%d)" % (self.k, code.co_filename[-40:], line))
+
+        mon.register_callback(self.tool, mon.events.LINE, on_line)
+        mon.set_events(self.tool, mon.events.LINE)
+        return self
+
+    def __exit__(self, *exc):
+        if self.ok:
+            mon = sys.monitoring
+            mon.set_events(self.tool, 0)
+            mon.register_callback(self.tool, mon.events.LINE, None)
+            mon.free_tool_id(self.tool)
+            try:
+                mon.restart_events()
+            except Exception:
+                pass
+        return False
